@@ -31,6 +31,7 @@ chk("C04", "exploration", "property-based testing (Hypothesis): generated ball h
     "balls and all counts sum to num_balls_known. Sub-check 'calm' repeats this with entries into a device held back "
     "while that device's own eject is unconfirmed; sub-check 'game' runs the same machines with the game mode, a "
     "generated ball save and a generated multiball and only player/physics operations (start button, drains, lock "
+    "An optional VUK (1-2 switches) sits between launcher and playfield (trough -> launcher -> VUK -> playfield). "
     "shots, plunges, multiball start/add-a-ball, early save). Search over a documented physical envelope, not proof.",
     "Balls are never created/destroyed, clean switches, >= 400 ms between two balls on one entrance switch, late "
     "arrivals below ball_missing_timeout, entrance-counted devices only eject successfully, no foreign playfield hit "
@@ -53,6 +54,7 @@ chk("C03", "exploration", "property-based testing (Hypothesis): generated switch
     "hold times, duplicate registrations, removals (also from callbacks), queries and integer-ms advances are run on the "
     "real SwitchController; a reference model decides for every callback and switch event whether it was due (exactly "
     "once per real change, at change+hold iff the state was held, mid-interval registrations at the original deadline, "
+    "Configured events with a hold time (event|ms, with and without unit) are modelled as implicit timed handlers. "
     "never after removal) and checks states and is_active/is_inactive answers. Search, not proof.",
     "ignore_window_ms = 0, no muting; an operation exactly at a deadline may land on either side.",
     "DESIGN.md §4 C03")
@@ -97,6 +99,7 @@ chk("C08", "exploration", "property-based testing (Hypothesis): generated coil l
     "entries, run-time changes of a template default and time gaps are applied. Every call reaching the driver must be "
     "within max_pulse_ms / max_pulse_power / max_hold_power and holding only where allowed; a request with a negative or "
     "over-limit parameter must raise and reach the driver with nothing; a software-timed pulse and a hold limited by "
+    "Sub-check 'integration' boots four flippers, three autofire coils and a kickback with generated coil limits and device-level coil overwrites and checks every pulse/hold setting that reaches the platform as a hardware rule or driver call (enable events, software flips, button presses, ball search). "
     "max_hold_duration must be followed by disable at their deadline whatever happens in between. Search, not proof.",
     "Virtual platform interface (hardware pulse limit 255 ms); max_pulse_power 0 and NaN not generated; serial platforms' encoders not covered.",
     "DESIGN.md §4 C08")
@@ -106,6 +109,7 @@ chk("C02", "exploration", "property-based testing (Hypothesis): generated queue/
     "arguments, and modes (with/without use_wait_queue, with in-mode blocks) started from queue events are executed on the "
     "real EventManager; the log must show handlers in priority order, no handler started while an earlier wait is "
     "outstanding, exactly one callback after the last clear by a stated horizon, no open queue task, relay folds and "
+    "Sub-check 'ballend' posts the game's ball_ending / mode_game_stopping queue events while a game mode is between starting and started, with generated waits on both (also cleared at the same instant), and requires them to complete; async handlers whose awaited future is cancelled are part of the programs. "
     "boolean short-circuit results. Search, not proof.",
     "Liveness is bounded (2 s of virtual time after the program's own last clear); async handlers only on queue-only events.",
     "DESIGN.md §4 C02, appendix A.1")
@@ -116,6 +120,7 @@ chk("C07", "exploration", "property-based testing (Hypothesis): generated start/
     "mode code. Checked: per-mode event order, accepted requests are acted on, nothing stuck after a stated horizon, "
     "active_modes equals the active modes in priority order after every step, no mode-code callback after 'stopped', and "
     "whenever all modes are stopped the event/switch handler registries, delays, timers, light stacks, coils and config "
+    "Sub-check 'game' starts and stops a game mode (shots with persisted enable state, a persisting counter, conditional and priority-suffixed events) inside real games and compares the registries with their state at the start of the ball / before the first game whenever the mode is stopped; the non-game modes also carry conditional and priority-suffixed entries. "
     "player instances equal the snapshot taken before any mode ran. Search, not proof.",
     "Non-game modes only; liveness bounded (waits <= 60 ms, 3 s quiet); registries compared by owner/function/priority/kwargs keys.",
     "DESIGN.md §4 C07")
@@ -126,6 +131,7 @@ chk("C06", "exploration", "property-based testing (Hypothesis): generated game h
     "recorded event sequence must be accepted by the statement's grammar (nesting, turn order, ball numbers <= "
     "balls_per_game, one ball plus awarded extra balls per turn, end only after the last turn or a request), balls in "
     "play stays within [0, balls known], a ball ends iff zero balls or a request (bounded), and after game_ended no game "
+    "end_ball requests are also issued between balls (ball_will_end .. player_turn_starting), where they must not end the following ball. "
     "is active and a new one starts. Search, not proof.",
     "Ball hardware faked as in MpfFakeGameTestCase; waits <= 80 ms; tilt requests only while a ball is in progress.",
     "DESIGN.md §4 C06")
@@ -146,6 +152,7 @@ chk("C10", "exploration", "property-based testing (Hypothesis): generated enable
     "coils (one with timeout protection) and a kickback on the virtual platform; after every step the installed "
     "switch->coil rules must equal exactly the rules the enabled devices' wiring implies (the platform raises on a "
     "double install), the enabled flag must follow the last explicit request, and whenever no ball is in play (no game, "
+    "Two flippers share one button and coil and are handed over by one event (never both enabled); requests are also generated while the autofire timeout protection has paused a device. "
     "ball ended, tilt, service) no flipper/autofire rule is installed and no flipper coil is energised. Search, not proof.",
     "Rule table of the virtual platform; delayed-pulse autofire rules are not available on it.",
     "DESIGN.md §4 C10")
@@ -157,6 +164,7 @@ chk("C09", "exploration", "property-based testing (Hypothesis): generated colour
     "setting and colour-correction profile. Checked: get_color() never leaves the hull of the colours involved; 3 s "
     "after the last operation get_color() equals the stack model's top colour and every hardware channel's last command "
     "equals that colour after brightness/colour correction; on virtual/direct backends hardware tracks running fades. "
+    "rgbw_white_behavior (duck_rgb, white_only, min_rgb) is generated. "
     "Search, not proof.",
     "Correction maths trusted from the light's own gamma_correct/color_correct; ties of priority accept either entry; tracking not asserted under gamma profiles or within 2 s of a removal.",
     "DESIGN.md §4 C09")
@@ -189,6 +197,7 @@ chk("C15", "fault_enumeration", "property-based testing (Hypothesis): generated 
     "saved version, never torn; a save made after a failed write must reach the disk and the writer must not wedge. "
     "Machine variables (generic and config-declared, YAML-lookalike strings, nested values, expiry on both sides of the "
     "reboot) are written through the real YAML interface and reloaded into a machine booted later: equal values and "
+    "Variables are set again after generated gaps (every set restarts the expiry). "
     "types, expired/non-persistent ones absent. Search over faults and schedules, not proof.",
     "Crash = process death at call-level points (no fsync/power-loss model); pre-emption only at the listed yield points; pickle interface not covered.",
     "DESIGN.md §4 C15, appendix A.3")
